@@ -102,7 +102,13 @@ is_6531_local (const char *start, const char *end)
             qpair = 0;
         else {
             switch (ch) {
-            case '"':   quote = 0; break;
+            case '"': {
+                /* a quoted-string is a whole word: only '.' may follow */
+                int pos = utf8_decode_at_byte (&u);
+                quote = 0;
+                if ((start + pos + 1) < end && start[pos + 1] != '.')
+                    return inverse(EEAV_LPART_MISPLACED_QUOTE);
+            } break;
             case '\\':  qpair = 1; break;
 #ifdef RFC6531_FOLLOW_RFC5322
             /* the next chars are not allowed in qtext: */
@@ -122,9 +128,12 @@ is_6531_local (const char *start, const char *end)
                         break;
 
                     switch (ch) {
-                        case '"':
+                        case '"': {
+                            int pos = utf8_decode_at_byte (&u);
                             quote = !quote;
-                            break;
+                            if ((start + pos + 1) < end && start[pos + 1] != '.')
+                                return inverse(EEAV_LPART_MISPLACED_QUOTE);
+                        } break;
                         case '\n': case '\r': case '\t': case ' ':
                             break;
                         default:
